@@ -224,6 +224,11 @@ pub fn amf_string(too_long: bool, allow_empty: bool) -> BoxedStrategy<S> {
         1 => proptest::collection::vec(any::<char>(), 1..6).prop_map(|v| S::lit(v.into_iter().collect::<String>())),
         1 => pick(&[("a", 65535u32), ("a", 65534), ("é", 32767), ("€", 21845), ("😀", 16383), ("ab", 32767), ("a", 256), ("a", 255)])
             .prop_map(|(u, r)| S::rep(u, r)),
+        // lengths whose HIGH byte is a marker-like value (0x00..0x11: 0x09xx is 2304..2559 bytes), made of
+        // bytes that are themselves one-byte AMF0 values, so that a decoder which looks at the first
+        // length byte as if it were a marker goes on decoding instead of failing loudly
+        1 => (prop_oneof![6 => 0u8..0x12, 1 => any::<u8>()], any::<u8>(), pick(&["a", "\u{5}", "\u{6}", "\u{0}", "\u{9}"]))
+            .prop_map(|(hi, lo, u)| S::rep(u, (((hi as u32) << 8) | lo as u32).max(1))),
     ];
     let with_empty = if allow_empty {
         prop_oneof![12 => base, 1 => Just(S::lit(""))].boxed()
